@@ -1,28 +1,92 @@
 (* C08 — value hashing is deterministic, discriminating and context-free. *)
-From Pydra Require Import Base.Prelude Base.PySort Model.Hash Spec.Hash Proofs.HashSort Proofs.HashRefuted.
+From Coq Require Import Sorting.Permutation.
+From Pydra Require Import Base.Prelude Base.PySort Model.Hash Spec.Hash Proofs.HashSort Proofs.HashCtx
+     Proofs.HashInj Proofs.HashOrder Proofs.HashDom Proofs.HashRefuted Proofs.HashExamples.
 
-(* context-free: hashing v after / alongside anything else (one shared Cache) gives the digest of v alone *)
+(* The property at full strength, for every hash function H standing for blake2b:
+   (1) context-free: hashing v after anything else under one shared Cache gives the digest of v alone;
+   (2) deterministic: equal values (sets as sets, dicts as maps) have equal digests;
+   (3) discriminating: equal digests mean equal values, or an explicit collision of H between two byte
+       strings hashed on the way. *)
 Definition C08_context_free_statement : Prop :=
   forall H ctx v, hash_in H ctx v = hash_in H [] v.
+Definition C08_order_statement : Prop :=
+  forall H a b, veq a b -> digest H a = digest H b.
+Definition C08_discriminating_statement : Prop :=
+  forall H a b d, digest H a = Ok d -> digest H b = Ok d ->
+                  veq a b \/ collision H (S (vdepth a)) a (S (vdepth b)) b.
+Definition C08_full_statement : Prop :=
+  C08_context_free_statement /\ C08_order_statement /\ C08_discriminating_statement.
 
+(* ---- what the unchanged code violates (each witness is replayed on the implementation by the driver) *)
 Theorem C08_refuted_cycle : ~ C08_context_free_statement.
 Proof. intros S. exact (cycle_context_dependent (S toyH [cyc_b] cyc_a)). Qed.
 Print Assumptions C08_refuted_cycle.
-
-(* deterministic: equal values (sets as sets, dicts as maps) have equal digests *)
-Definition C08_order_statement : Prop :=
-  forall H a b, veq a b -> digest H a = digest H b.
 
 Theorem C08_refuted_partial_order : ~ C08_order_statement.
 Proof. intros S. destruct partial_order_insertion_dependent as [E N]. exact (N (S toyH _ _ E)). Qed.
 Print Assumptions C08_refuted_partial_order.
 
-(* discriminating: the bytes of two different values differ.  Refuted: a PathLike dict key is not
-   self-delimiting *)
-Theorem C08_refuted_pathkey :
-  exists a b, ~ veq a b /\ preimage toyH a = preimage toyH b.
+Theorem C08_refuted_pathkey : ~ C08_discriminating_statement.
 Proof.
-  exists (pk_d1 (VInt 10115) (VStr "x")), (pk_d2 toyH (VInt 10115) (VStr "x")).
-  split; [vm_compute; discriminate|exact pathkey_same_bytes_example].
+  intros S. destruct pathkey_not_discriminated as (Hne & (d & D1 & D2) & Hnc).
+  destruct (S toyH pk_a pk_b d D1 D2); contradiction.
 Qed.
 Print Assumptions C08_refuted_pathkey.
+
+Theorem C08_refuted : ~ C08_full_statement.
+Proof. intros [S _]. exact (C08_refuted_cycle S). Qed.
+Print Assumptions C08_refuted.
+
+(* ---- the strongest positive statements; the excluded input classes are the computable predicates of
+   Proofs/HashDom.v (norefb / sortableb / inj_domb), mirrored by the driver's finding classifiers *)
+
+(* values without reference cycles (identities consistent with some env: aliasing allowed): any sequence of
+   hash_object calls sharing one Cache returns for each value the digest it has alone *)
+Theorem C08_context_free_acyclic :
+  forall H env ctx v, (forall x, In x (ctx ++ [v]) -> hashable_acyclic H env x) -> hash_in H ctx v = digest H v.
+Proof. exact context_free_acyclic. Qed.
+Print Assumptions C08_context_free_acyclic.
+
+(* the Cache memo never changes a digest: hash_single under any Cache whose finished entries are right *)
+Theorem C08_memo_sound :
+  forall H env f v opened m d, wf env opened v -> Inv H env opened m -> dig H f v tt = Ok (d, tt) ->
+                               exists m', hs H f v m = Ok (d, m') /\ Inv H env opened m'.
+Proof. exact hs_context_free. Qed.
+Print Assumptions C08_memo_sound.
+
+(* permuting the elements of any set / the insertion order of any dict or attribute dict, anywhere in the value,
+   does not change the digest when `<` is a strict total order on the elements of each such container *)
+Theorem C08_order_invariant :
+  forall H f v1 v2, reorder v1 v2 -> sortable v1 -> dig H f v1 tt = dig H f v2 tt.
+Proof. exact dig_reorder. Qed.
+Print Assumptions C08_order_invariant.
+
+(* CPython's sort, as modelled, returns a strictly sorted permutation whatever the input order *)
+Theorem C08_sort_perm_invariant :
+  forall l1 l2, keys_ok l1 -> Permutation l1 l2 -> sorted_res vlt l1 = sorted_res vlt l2.
+Proof. exact sorted_set_perm. Qed.
+Print Assumptions C08_sort_perm_invariant.
+
+Theorem C08_ser_injective :
+  forall H v1 v2 d, inj_dom v1 -> inj_dom v2 -> digest H v1 = Ok d -> digest H v2 = Ok d ->
+                    veq v1 v2 \/ collision H (S (vdepth v1)) v1 (S (vdepth v2)) v2.
+Proof. exact ser_injective. Qed.
+Print Assumptions C08_ser_injective.
+
+Theorem C08_partial :
+  (forall H env ctx v, (forall x, In x (ctx ++ [v]) -> hashable_acyclic H env x) -> hash_in H ctx v = digest H v) /\
+  (forall H f v1 v2, reorder v1 v2 -> sortable v1 -> dig H f v1 tt = dig H f v2 tt) /\
+  (forall H v1 v2 d, inj_dom v1 -> inj_dom v2 -> digest H v1 = Ok d -> digest H v2 = Ok d ->
+                     veq v1 v2 \/ collision H (S (vdepth v1)) v1 (S (vdepth v2)) v2).
+Proof. exact (conj context_free_acyclic (conj dig_reorder ser_injective)). Qed.
+Print Assumptions C08_partial.
+
+(* the hypotheses are met by non-trivial values *)
+Theorem C08_examples :
+  inj_dom ex_val /\ sortable ex_val2 /\ (forall H, hashable_acyclic H ex_env ex_v) /\
+  (let v1 := VDict 1 [(VStr "b", VSet 2 [VInt 3; VInt 1; VInt 2]); (VStr "a", VList 3 [VBytes "x"])] in
+   let v2 := VDict 7 [(VStr "a", VList 8 [VBytes "x"]); (VStr "b", VSet 9 [VInt 2; VInt 3; VInt 1])] in
+   reorder v1 v2 /\ sortable v1).
+Proof. exact (conj ex_inj_dom (conj ex_sortable (conj ex_hashable_acyclic reorder_example))). Qed.
+Print Assumptions C08_examples.
